@@ -498,6 +498,9 @@ func accessPathD(v ssa.Value, depth int) string {
 	case *ssa.FieldAddr:
 		return accessPathD(x.X, depth+1) + "." + fieldName(x.X.Type(), x.Field)
 	case *ssa.Field:
+		if fv := localStructField(x); fv != nil {
+			return accessPathD(fv, depth+1)
+		}
 		return accessPathD(x.X, depth+1) + "." + fieldNameV(x.X.Type(), x.Field)
 	case *ssa.IndexAddr:
 		return accessPathD(x.X, depth+1) + "[" + accessPathD(x.Index, depth+1) + "]"
@@ -508,6 +511,9 @@ func accessPathD(v ssa.Value, depth int) string {
 	case *ssa.UnOp:
 		switch x.Op {
 		case token.MUL:
+			if fv := localStructField(x); fv != nil {
+				return accessPathD(fv, depth+1)
+			}
 			if al, ok := x.X.(*ssa.Alloc); ok {
 				if sv := allocSingleStore(al); sv != nil {
 					return accessPathD(sv, depth+1)
@@ -958,6 +964,12 @@ func constArgName(v ssa.Value) string {
 func resolve(v ssa.Value) ssa.Value {
 	for i := 0; i < 8; i++ {
 		v = stripConv(v)
+		// a field of a small local struct that was assembled on the spot (a result struct of an inlined helper, a
+		// parameter object): the value that was stored into that field
+		if fv := localStructField(v); fv != nil {
+			v = fv
+			continue
+		}
 		u, ok := v.(*ssa.UnOp)
 		if !ok || u.Op != token.MUL {
 			return v
@@ -1376,4 +1388,100 @@ func returnedCases(f *ssa.Function, idx int) []retCase {
 		out = append(out, returnValueCases(r, idx)...)
 	}
 	return out
+}
+
+
+// localStructField: v reads field k of a struct held in a local (`s.k` as a load through FieldAddr, or Field of a loaded
+// struct value) and that local got field k from exactly one store (directly, or by one whole-struct copy of another
+// such local). It returns the stored value, or nil.
+func localStructField(v ssa.Value) ssa.Value {
+	var al *ssa.Alloc
+	idx := -1
+	switch x := v.(type) {
+	case *ssa.UnOp:
+		if x.Op != token.MUL {
+			return nil
+		}
+		fa, ok := x.X.(*ssa.FieldAddr)
+		if !ok {
+			return nil
+		}
+		a, ok := fa.X.(*ssa.Alloc)
+		if !ok {
+			return nil
+		}
+		al, idx = a, fa.Field
+	case *ssa.Field:
+		ld, ok := stripConv(x.X).(*ssa.UnOp)
+		if !ok || ld.Op != token.MUL {
+			return nil
+		}
+		a, ok := ld.X.(*ssa.Alloc)
+		if !ok {
+			return nil
+		}
+		al, idx = a, x.Field
+	default:
+		return nil
+	}
+	return structFieldOfAlloc(al, idx, 0)
+}
+
+func structFieldOfAlloc(al *ssa.Alloc, idx int, depth int) ssa.Value {
+	if depth > 4 {
+		return nil
+	}
+	if _, isStruct := al.Type().(*types.Pointer).Elem().Underlying().(*types.Struct); !isStruct {
+		return nil
+	}
+	var fieldStores, wholeStores []*ssa.Store
+	escapes := false
+	for _, r := range refsOf(al) {
+		switch x := r.(type) {
+		case *ssa.FieldAddr:
+			for _, r2 := range refsOf(x) {
+				switch y := r2.(type) {
+				case *ssa.Store:
+					if y.Addr == ssa.Value(x) && x.Field == idx {
+						fieldStores = append(fieldStores, y)
+					}
+				case *ssa.UnOp:
+				default:
+					if x.Field == idx {
+						escapes = true // the field's address is handed to something
+					}
+				}
+			}
+		case *ssa.Store:
+			if x.Addr == ssa.Value(al) {
+				wholeStores = append(wholeStores, x)
+			} else {
+				escapes = true
+			}
+		case *ssa.UnOp, *ssa.DebugRef:
+		default:
+			escapes = true
+		}
+	}
+	if escapes {
+		return nil
+	}
+	var nz []*ssa.Store
+	for _, s := range wholeStores {
+		if k, ok := s.Val.(*ssa.Const); ok && k.Value == nil {
+			continue
+		}
+		nz = append(nz, s)
+	}
+	switch {
+	case len(fieldStores) == 1 && len(nz) == 0:
+		return fieldStores[0].Val
+	case len(fieldStores) == 0 && len(nz) == 1:
+		if ld, ok := stripConv(nz[0].Val).(*ssa.UnOp); ok && ld.Op == token.MUL {
+			if src, ok := ld.X.(*ssa.Alloc); ok {
+				return structFieldOfAlloc(src, idx, depth+1)
+			}
+		}
+	}
+	return nil
 }
